@@ -34,7 +34,7 @@ def gen_and_build(plugin, ctx, clean=False):
     """GEN + PROVE + extraction build.  Returns nothing; fills ctx.prove_*, ctx.model."""
     pid = plugin.ID
     log = []
-    ctx.forbidden = core.forbidden_scan()
+    ctx.forbidden = []
     with core.Lock():
         # GEN -------------------------------------------------------------------------------
         gen_ok = True
@@ -49,8 +49,9 @@ def gen_and_build(plugin, ctx, clean=False):
                 ctx.facts_changed.append(rel)
         os.makedirs(os.path.join(core.BUILD, 'ocaml', pid), exist_ok=True)
         # PROVE -----------------------------------------------------------------------------
-        cone = core.cone(plugin.COQ_CONE)
+        cone = core.cone(plugin.COQ_CONE + ([plugin.EXTRACT] if getattr(plugin, 'EXTRACT', None) else []))
         ctx.cone = cone
+        ctx.forbidden = core.forbidden_scan(cone)
         ctx.obligations, ctx.obligation_names = core.count_obligations(cone)
         t = time.time()
         ok, out = core.make_targets(plugin.COQ_CONE)
@@ -89,7 +90,7 @@ def gen_and_build(plugin, ctx, clean=False):
                     except FileNotFoundError:
                         pass
                     ok3, out3 = core.make_targets([plugin.EXTRACT])
-                drivers = ['ocaml/common.ml'] + ([plugin.DRIVER] if plugin.DRIVER else [])
+                drivers = ['ocaml/common.ml'] + core.as_list(plugin.DRIVER)
                 exe, err = core.build_binary(pid, drivers)
                 if exe is None:
                     log.append('ocaml build failed:\n' + err[-3000:])
@@ -135,7 +136,7 @@ def trusted_base(plugin, ctx):
         % (ctx.closed, ', '.join(ctx.axioms) if ctx.axioms else 'none'),
         'extraction: Require Extraction + ExtrOcamlBasic only (bool, option, unit, list, prod, sumbool, '
         'sumor mapped to OCaml; andb/orb inlined); nat/N/Z/positive/ascii/string stay extracted inductives; '
-        'hand-written OCaml driver ocaml/common.ml + %s; ocamlfind ocamlopt 4.13.1' % (plugin.DRIVER or '-'),
+        'hand-written OCaml driver ocaml/common.ml + %s; ocamlfind ocamlopt 4.13.1' % (', '.join(core.as_list(plugin.DRIVER)) or '-'),
         'translator harness/props/%s.py:gen_facts (fail-closed, emits literals read from live objects / AST of /repo)'
         % plugin.ID.lower(),
         'correspondence harness (Python): canonicalisers, stubs and monkey-patches listed in the plug-in docstring',
@@ -243,7 +244,7 @@ def setup():
         rc_all |= rc
         for pl in plugins:
             if getattr(pl, 'EXTRACT', None):
-                exe, err = core.build_binary(pl.ID, ['ocaml/common.ml'] + ([pl.DRIVER] if pl.DRIVER else []))
+                exe, err = core.build_binary(pl.ID, ['ocaml/common.ml'] + core.as_list(pl.DRIVER))
                 if exe is None:
                     print('binary for %s failed: %s' % (pl.ID, err[-1500:]))
                     rc_all |= 1
